@@ -72,7 +72,7 @@ impl Writer {
 //@extract src/writer.rs | impl<D: Distance> Writer<D> | build
 //@attr #[verifier::exec_allows_no_decreases_clause]
 //@ghostarg incremental_index_large_descendants <<<Ghost(roots@)>>>
-//@hint before <<<self.pre_process_items(wtxn, options)?;>>>
+//@hint start <<<>>>
         let ghost v0 = wtxn.view(); let ghost i = self.index; let ghost cap = cap_of(options, self.dimensions);
 //@hint afterstmt <<<self.pre_process_items(wtxn, options)?;>>>
         let ghost v1 = wtxn.view();
